@@ -119,7 +119,7 @@ struct E6 : Engine {
 				ch.push(c); continue; }
 			if(x == 0 && r.below(2)){ c["kind"] = "ptimer"; c["ms"] = 1 + (int)r.below(12); c["times"] = 2 + (int)r.below(5); c["cancel_after_ms"] = r.below(4) ? (int)r.below(60) : -1; }   // periodic - the handler re-arms the same timer from inside, a cancel has to stop the wait pending at that moment
 			else if(x == 0){ c["kind"] = "dtimer"; c["ms"] = (int)r.below(30); c["cancel_after_ms"] = r.below(2) ? (int)r.below(40) : -1; }
-			else if(x == 1){ c["kind"] = "read"; c["want"] = 1 + (int)r.below(3000); c["feed"] = (int)r.below(4000); c["chunk"] = 1 + (int)r.below(700); c["close_peer"] = r.below(3) == 0; c["cancel_after_ms"] = r.below(3) == 0 ? (int)r.below(20) : -1; c["close"] = (int)r.below(2); }
+			else if(x == 1){ c["kind"] = "read"; c["want"] = 1 + (int)r.below(3000); c["feed"] = (int)r.below(4000); c["chunk"] = 1 + (int)r.below(700); c["close_peer"] = r.below(3) == 0; c["cancel_after_ms"] = r.below(3) == 0 ? (int)r.below(20) : -1; c["close"] = (int)r.below(2); c["eof_first"] = r.below(5) == 0; }   /* eof_first (round 9): the peer has closed before async_read() is started - its first immediate attempt already ends with eof */
 			else { c["kind"] = "write"; c["len"] = 1 + (int)r.below(20000); c["cap"] = 1 + (int)r.below(3000); c["drain"] = 1 + (int)r.below(2000); c["cancel_after_ms"] = r.below(4) == 0 ? (int)r.below(20) : -1; c["close"] = (int)r.below(2); }
 			ch.push(c); }
 		p["chains"] = ch;
@@ -241,6 +241,7 @@ struct E6 : Engine {
 					int sv[2]; socketpair(AF_UNIX,SOCK_STREAM,0,sv); fcntl(sv[1],F_SETFL,O_NONBLOCK); ch->peer = sv[1];
 					ch->sock.reset(new aio::stream_socket(srv)); ch->sock->assign(sv[0]); ch->sock->set_non_blocking(true);
 					if(ch->kind == "read"){ size_t want = (size_t)std::max<int64_t>(1,std::min<int64_t>(c.geti("want",1),100000)); ch->buf.assign(want,'\0'); ch->feed = (size_t)std::max<int64_t>(0,std::min<int64_t>(c.geti("feed"),200000)); ch->chunk = (size_t)std::max<int64_t>(1,c.geti("chunk",1)); ch->close_peer = c.geti("close_peer");
+						if(c.geti("eof_first")){ ::close(ch->peer); ch->peer = -1; ch->peer_closed = true; ch->feed = 0; ch->close_peer = false; res.counters["aread_peer_closed_first"] = res.counters.geti("aread_peer_closed_first") + 1; }
 						ch->hid = w.add("aread"); w.h[ch->hid].want = want;
 						srv.post([cp]{ cp->sock->async_read(aio::buffer(&cp->buf[0],cp->buf.size()),Fn(cp->hid)); }); }
 					else { size_t len = (size_t)std::max<int64_t>(1,std::min<int64_t>(c.geti("len",1),400000)); ch->buf.resize(len); for(size_t j=0;j<len;j++) ch->buf[j] = (char)((j*13+i) & 0xff); ch->drain = (size_t)std::max<int64_t>(1,c.geti("drain",1));
